@@ -96,6 +96,11 @@ pub fn twice_scn(p: Pipe, script: Vec<Emit<i64>>, threaded: bool, q: Option<u32>
 }
 
 pub fn pipe_scn(p: Pipe, script: Vec<Emit<i64>>, threaded: bool, unsub: bool, q: Option<u32>, t: Option<u32>) -> Scn {
+  pipe_scn_gaps(p, script, vec![], threaded, unsub, q, t)
+}
+
+/// `gaps[i]`: virtual milliseconds the (threaded) source sleeps before its i-th event
+pub fn pipe_scn_gaps(p: Pipe, script: Vec<Emit<i64>>, gaps: Vec<u64>, threaded: bool, unsub: bool, q: Option<u32>, t: Option<u32>) -> Scn {
   let name = format!(
     "c09/{:?} {} source P({}){}",
     p,
@@ -103,14 +108,16 @@ pub fn pipe_scn(p: Pipe, script: Vec<Emit<i64>>, threaded: bool, unsub: bool, q:
     script_label(&script),
     if unsub { " || unsubscribe" } else { "" }
   );
+  let name = if gaps.iter().any(|g| *g > 0) { format!("{} with pauses {:?} ms", name, gaps) } else { name };
   let family = if is_subscribe_on(p) { "subscribe_on" } else { "observe_on" };
   let mut sc = scn(&name, family, q, t, move || {
     let rec = Rec::new();
     let causes = Causes::new();
     let unsub_ret: Arc<Mutex<Option<u64>>> = Arc::new(Mutex::new(None));
     let (rec2, causes2, script2, ur2) = (rec.clone(), causes.clone(), script.clone(), unsub_ret.clone());
+    let gaps2 = gaps.clone();
     let body: Body = Box::new(move || {
-      let src = if threaded { threaded_source("a", script2.clone(), vec![], causes2.clone()) } else { sync_source("a", script2.clone(), causes2.clone()) };
+      let src = if threaded { threaded_source("a", script2.clone(), gaps2.clone(), causes2.clone()) } else { sync_source("a", script2.clone(), causes2.clone()) };
       let o = build(p, src);
       let sub = rec2.sub_i64(&o);
       if unsub {
@@ -328,6 +335,13 @@ pub fn scenarios() -> Vec<Scn> {
     s.min_conflicts = 1;
     s.cfg.max_steps = 200_000;
     v.push(s);
+  }
+  // a long quiet period in the middle of the stream (one minute of virtual time): the worker that has
+  // delivered the first item is still there for the second
+  for p in [Pipe::ObserveOn, Pipe::ObserveOnTwice, Pipe::SubscribeOnObserveOn] {
+    let quick = p == Pipe::ObserveOn;
+    v.push(pipe_scn_gaps(p, vec![N(1), N(2), C], vec![0, 60_000, 0], true, false, if quick { Some(2) } else { None }, Some(2)));
+    v.push(pipe_scn_gaps(p, vec![N(1), E(7)], vec![0, 60_000], true, false, if quick { Some(1) } else { None }, Some(2)));
   }
   v.push(feedback_scn(false, Some(2), Some(3)));
   v.push(feedback_scn(true, Some(2), Some(3)));
